@@ -377,6 +377,30 @@ def r08e(model, ctx):
                    fact="first wake-up after `phase` (no toggle), then toggle every period // 2",
                    why="The clock process must first wait `phase` without toggling and then toggle and re-arm with the integer "
                        "half period `period // 2`.")
+    # the clock's phase and period are stored as given (a phase of a whole period or more delays the first toggle)
+    from .c17 import _stored
+    fci, stored = _stored(model, f"{CLOCK}::PyClockProcess.__init__")
+    need(stored, "PyClockProcess.__init__: no completing path")
+    ok = all(st.get("phase") == "phase" and st.get("period") == "period" for _p, st, _c in stored)
+    ctx.check(ok, R, "PyClockProcess.__init__", "phase and period stored unchanged",
+              "PyClockProcess must store phase and period exactly as given: the clock first toggles at `phase`, then every half period "
+              "(reducing the phase modulo the period starts the clock early)", f"{CLOCK}:{fci.lineno}")
+    # a process looping over changed() is woken once at time 0 if ANY of its triggers is a ChangedTrigger
+    fie = model.func(f"{PYSIM}::_PyTriggerState.initial_eligible")
+    rets = [x for x in fie.body if isinstance(x, ast.Return)]
+    ok = False
+    if len(rets) == 1 and isinstance(rets[0].value, ast.BoolOp) and isinstance(rets[0].value.op, ast.And) and len(rets[0].value.values) == 2:
+        parts = {unparse(v) for v in rets[0].value.values}
+        gens = [v for v in rets[0].value.values if isinstance(v, ast.Call) and dotted(v.func) == "any" and len(v.args) == 1 and
+                isinstance(v.args[0], (ast.GeneratorExp, ast.ListComp))]
+        if "not self._oneshot" in parts and len(gens) == 1:
+            g = gens[0].args[0]
+            tv = unparse(g.generators[0].target)
+            ok = unparse(g.generators[0].iter) == "self._combination._triggers" and not g.generators[0].ifs and \
+                unparse(g.elt) == f"isinstance({tv}, ChangedTrigger)"
+    ctx.check(ok, R, "_PyTriggerState.initial_eligible", "not one-shot and any trigger is a ChangedTrigger",
+              "a (non one-shot) combination that contains a changed() trigger must be eligible for the time-0 wake-up whatever other "
+              "triggers it also contains (any, not all): a process replacing a circuit must see the initial values", f"{PYSIM}:{fie.lineno}")
     frs = model.func(f"{CLOCK}::PyClockProcess.reset")
     ok = "self.initial = True" in unparse(frs) and "self.runnable = True" in unparse(frs)
     ctx.check(ok, R, "PyClockProcess.reset", "re-arms the initial phase", "reset() must re-arm the initial phase wait",
